@@ -20,6 +20,17 @@ def edit_program(rng, p):
     """One random edit; returns (new program, kind)."""
     q = copy.deepcopy(p)
     kinds = ["thr", "thr", "thr", "addop", "delop", "win", "emit", "src", "rename", "add", "remove", "swap", "seq", "join"]
+    # edits that live ONLY inside the source expression (op chain and primary types unchanged)
+    inl = [s for s in q if s["kind"] == "merge" and any(isinstance(m, dict) for m in s["srcs"])]
+    sq = [s for s in q if s["kind"] == "sseq"]
+    if (inl or sq) and rng.chance(2, 3):
+        if inl and (not sq or rng.chance(1, 2)):
+            m = rng.choice([m for m in rng.choice(inl)["srcs"] if isinstance(m, dict)])
+            m["thr"] += rng.choice([-4, -3, 3, 4])
+            return q, "merge-inline-filter"
+        st = rng.choice(rng.choice(sq)["ssteps"][1:])
+        st[2] = rng.range(0, 3) if st[2] is None else (None if rng.chance(1, 4) else st[2] + rng.choice([-3, 3, 4]))
+        return q, "sequence-source-filter"
     for _ in range(12):
         k = rng.choice(kinds)
         s = rng.choice(q)
@@ -71,7 +82,7 @@ def edit_program(rng, p):
             i = rng.below(len(q) - 1)
             # keep the program acyclic w.r.t. compile-time references: only swap independent neighbours
             a, b = q[i], q[i + 1]
-            refs_b = [b.get("src"), b.get("l"), b.get("r")] + list(b.get("steps", [])) + list(b.get("srcs", []))
+            refs_b = D.source_refs(b)
             if a["name"] not in refs_b:
                 q[i], q[i + 1] = b, a
                 return q, "reorder"
@@ -86,6 +97,20 @@ def edit_program(rng, p):
 
 def gen_scenario(rng):
     p0, shape = D.gen_program(rng, 4, acyclic=True)
+    if rng.chance(1, 3):
+        name = "S%d" % (len(p0) + 1)
+        if rng.chance(1, 2):
+            a, b = rng.choice([("A", "B"), ("B", "C"), ("A", "C")])
+            p0.append({"name": name, "kind": "merge",
+                       "srcs": [{"n": "m1", "t": a, "thr": rng.range(1, 5)}, b if rng.chance(1, 2) else {"n": "m2", "t": b, "thr": rng.range(0, 4)}],
+                       "ops": ([["window", 2], ["agg"]] if rng.chance(1, 3) else []) + [["emit"]]})
+        else:
+            t1, t2 = rng.choice(D.RAW), rng.choice(D.RAW)
+            steps = [["a", t1, None], ["b", t2, rng.range(0, 4) if rng.chance(3, 4) else None]]
+            if rng.chance(1, 3):
+                steps.append(["c", rng.choice(D.RAW), rng.range(0, 4)])
+            p0.append({"name": name, "kind": "sseq", "ssteps": steps})
+        shape += "+source-expr"
     evs = D.gen_events(rng, p0, rng.range(4, 10))
     n_reloads = 1 if rng.chance(3, 4) else 2
     points = sorted((rng.range(1, len(evs) - 1) if rng.chance(5, 6) else rng.below(len(evs) + 1)) for _ in range(n_reloads))
@@ -183,7 +208,7 @@ def dependency_recompiled(sc, name, v0, v1):
     incarnation keeps its old compilation while the routing follows the new program. Its declaration did not
     change, so the property says nothing about it; it cannot be compared with a fresh engine."""
     spec = next(s for s in sc["versions"][v0] if s["name"] == name)
-    refs = list(spec.get("steps", [])) + [spec.get("l"), spec.get("r")] if spec["kind"] in ("seq", "join") else []
+    refs = (list(spec.get("steps", [])) + [spec.get("l"), spec.get("r")] + [t for _, t, _ in spec.get("ssteps", [])]) if spec["kind"] in ("seq", "join", "sseq") else []
     refs = [r for r in refs if r is not None]
     for v in range(v0 + 1, v1 + 1):
         old = {x["name"]: D.decl_key(x) for x in sc["versions"][v - 1]}
@@ -328,6 +353,13 @@ def model_expr(sc, rec):
 
 
 CORPUS = [
+    # edits ONLY inside the source expression (op chain and primary event types unchanged): the stream must be replaced
+    {"p0": [{"name": "S1", "kind": "merge", "srcs": [{"n": "hi", "t": "A", "thr": 1}, {"n": "lo", "t": "B", "thr": 0}], "ops": [["emit"]]}],
+     "evs": [("A", 3, 0), ("A", 3, 0), ("B", 2, 0), ("A", 9, 0)], "reload_at": 1, "kind": "merge-inline-filter",
+     "edit": [{"name": "S1", "kind": "merge", "srcs": [{"n": "hi", "t": "A", "thr": 5}, {"n": "lo", "t": "B", "thr": 0}], "ops": [["emit"]]}]},
+    {"p0": [{"name": "S1", "kind": "sseq", "ssteps": [["a", "A", None], ["b", "B", 1]]}],
+     "evs": [("A", 1, 0), ("B", 3, 0), ("A", 2, 0), ("B", 3, 0), ("A", 4, 0), ("B", 9, 0)], "reload_at": 2, "kind": "sequence-source-filter",
+     "edit": [{"name": "S1", "kind": "sseq", "ssteps": [["a", "A", None], ["b", "B", 5]]}]},
     # sequence + join: the routing table was rebuilt from the primary source only
     {"p0": [{"name": "S1", "kind": "seq", "steps": ["A", "B"], "corr": False, "emit": True},
             {"name": "S2", "kind": "join", "l": "A", "r": "B", "emit": True}],
@@ -352,7 +384,7 @@ def corpus_scenarios():
         p1 = c["edit"] if c["edit"] is not None else copy.deepcopy(c["p0"])
         steps = [{"k": "event", "e": e} for e in evs[:c["reload_at"]]] + [{"k": "reload", "prog": p1}] + \
                 [{"k": "event", "e": e} for e in evs[c["reload_at"]:]]
-        out.append({"p0": c["p0"], "steps": steps, "versions": [c["p0"], p1], "kinds": ["identity" if c["edit"] is None else "threshold"],
+        out.append({"p0": c["p0"], "steps": steps, "versions": [c["p0"], p1], "kinds": ["identity" if c["edit"] is None else c.get("kind", "threshold")],
                     "events": evs, "shape": "corpus", "mode": "event"})
     return out
 
